@@ -120,6 +120,13 @@ def run(tier, seed, replay=None):
         for i in range(n):
             r = util.rng(seed, PROP, "doc", i)
             docs.append(("d%04d" % i, gen_doc(r), ["stringish"]))
+        fmts = schemagen.STR_FORMATS + UNKNOWN_FORMATS
+        for j in range(0, len(fmts), 4):
+            chunk = fmts[j:j + 4]
+            defs_ = {"F%d" % (j + k_): {"type": "string", "format": f_} for k_, f_ in enumerate(chunk)}
+            defs_["AnyOfThem"] = {"oneOf": [{"type": "string", "format": f_} for f_ in chunk[:2]] +
+                                  [{"type": "string", "enum": ["fallback"]}]}
+            docs.append(("fmt%02d" % j, {"definitions": defs_}, ["stringish", "formats"]))
         docs += [d for d in common.gen_docs(PROP, seed, 0) if d[0].startswith("k_")]
     cases = [{"id": did, "settings": {}, "history": [{"op": "root", "schema": doc}]} for did, doc, u in docs]
     run_ = pipeline.Run(PROP, "main")
